@@ -4,25 +4,11 @@
   `(m + N − S) mod N`; the period holds the minutes on its grid whose offset is below its span.
 -/
 import Ladybug.Proofs.C02Index
+import Ladybug.Proofs.C02Cyclic
 
 open Cal
 
 namespace Filter
-
-/-- Membership in a whole-day period in cyclic coordinates. -/
-theorem mem_cyc (ap : AP) (hwf : ap.WF) (h0 : ap.st_hour = 0) (h23 : ap.end_hour = 23) (m : Nat) :
-    m ∈ ap.moys ↔ m < minutesInYear ap.leap ∧ m % ap.step = 0 ∧
-      (m + minutesInYear ap.leap - ap.stMoy) % minutesInYear ap.leap < ap.moys.length * ap.step := by
-  obtain ⟨hs, he, m1, m2, m3, m4, m5, m6, hrev⟩ := AP.moment_facts ap hwf
-  obtain ⟨hspan, _⟩ := moys_getElem ap hwf h0 h23
-  have hN : minutesInYear ap.leap = 525600 ∨ minutesInYear ap.leap = 527040 := by
-    unfold minutesInYear daysInYear; cases ap.leap <;> simp
-  rw [AP.mem_moys ap hwf]
-  unfold AP.Pred
-  have hw := inWindow_wholeDay ap h0 h23 (m % 1440)
-  rcases hN with hN | hN <;> simp only [hN] at m5 m6 hspan ⊢ <;> split at hspan <;>
-    constructor <;> (try rintro ⟨a1, a2, _, a4⟩) <;> (try rintro ⟨a1, a2, a4⟩) <;>
-    refine ⟨a1, a2, ?_⟩ <;> (try refine ⟨hw, ?_⟩) <;> omega
 
 /-- The integer part of the slice bounds: `int(x / t_s − src_ind) % yr_len` is the cyclic offset of
     the minute `x` from the start of the collection, in steps. -/
@@ -58,18 +44,149 @@ theorem slice_idx (src f : AP) (hs : src.WF) (hf : f.WF) (hl : f.leap = src.leap
   rw [Int.fmod_eq_emod_of_nonneg _ (Int.le_of_lt hYpos)]
   exact e1
 
-/-! ### Python slices with natural bounds -/
-
-theorem slice_nat {β : Type} (l : List β) (a b : Nat) (hab : a ≤ b) (hb : b ≤ l.length) :
-    Py.slice l (a : Int) (b : Int) = (l.drop a).take (b - a) := by
-  unfold Py.slice Py.clampIdx
-  rw [if_pos (Int.natCast_nonneg a), if_pos (Int.natCast_nonneg b)]
-  simp only [Int.toNat_natCast]
-  rw [Nat.min_eq_left (show a ≤ l.length by omega), Nat.min_eq_left hb]
-
-theorem slice_zero {β : Type} (l : List β) (b : Nat) (hb : b ≤ l.length) :
-    Py.slice l 0 (b : Int) = l.take b := by
-  have := slice_nat l 0 b (Nat.zero_le _) hb
-  simpa using this
+/-- **The whole-day continuous period filter.**  Proof: positions in the collection are counted in
+    steps around the year (`cyc`); the filter's step `k` sits at position `(a + k) mod Y` where `a` is the
+    position of the filter's first step; the rational index arithmetic computes `a` and the position
+    of the filter's last hour (`slice_idx`, `cyc_offset`); `sliceVals_cyc` does the rest. -/
+theorem cont_period {α : Type} (c : Cont α) (hc : c.WF) (f : AP) (hchk : checkAP c.ap f = true)
+    (hday : (apSubset c.ap f).st_hour = 0 ∧ (apSubset c.ap f).end_hour = 23)
+    (hwf : (apSubset c.ap f).WF) (hin : ∀ m ∈ (apSubset c.ap f).moys, m ∈ c.ap.moys) :
+    ∃ vs : List α, Cont.filterByAP f c = .ok (.cont ⟨apSubset c.ap f, vs⟩) ∧
+      vs.length = (apSubset c.ap f).moys.length ∧
+      ∀ (k m : Nat) (v : α), (apSubset c.ap f).moys[k]? = some m → vs[k]? = some v → (m, v) ∈ c.pairs := by
+  have hkeep : (apSubset c.ap f).leap = c.ap.leap ∧ (apSubset c.ap f).timestep = c.ap.timestep := by
+    have h1 : (apSubset c.ap f).leap = f.leap ∧ (apSubset c.ap f).timestep = f.timestep := by
+      unfold apSubset; split <;> exact ⟨rfl, rfl⟩
+    unfold checkAP at hchk
+    simp at hchk
+    exact ⟨by rw [h1.1, hchk.2], by rw [h1.2, hchk.1]⟩
+  have hred : Cont.filterByAP f c = (Cont.mk? (apSubset c.ap f) (sliceVals c.vals
+      (sliceStart c.ap (apSubset c.ap f)) (sliceEnd c.ap (apSubset c.ap f)))).map Res.cont := by
+    unfold Cont.filterByAP
+    rw [if_neg (by simp [hchk])]
+    simp only []
+    rw [if_pos hday]
+  rw [hred]
+  generalize apSubset c.ap f = f' at hday hwf hin hkeep ⊢
+  obtain ⟨hleap, htseq⟩ := hkeep
+  obtain ⟨hwfs, h0s, h23s, hlen⟩ := hc
+  have hstep : f'.step = c.ap.step := by unfold AP.step; rw [htseq]
+  obtain ⟨sp_s, get_s⟩ := moys_getElem c.ap hwfs h0s h23s
+  obtain ⟨sp_f, get_f⟩ := moys_getElem f' hwf hday.1 hday.2
+  rw [hleap, hstep] at sp_f get_f
+  obtain ⟨_, _, s1, s2, _, _, s5, s6, _⟩ := AP.moment_facts c.ap hwfs
+  obtain ⟨_, _, f1, f2, _, _, f5, f6, _⟩ := AP.moment_facts f' hwf
+  rw [hleap] at f5 f6
+  have hT : 0 < c.ap.step := AP.step_pos c.ap hwfs.2.2
+  have tsT : c.ap.timestep * c.ap.step = 60 := (AP.ts_facts c.ap hwfs.2.2 0 0 rfl (Nat.le_refl _)).2.2.2.2.2
+  have hts0 : 0 < c.ap.timestep := by
+    apply Nat.pos_of_ne_zero; intro h; rw [h] at tsT; simp at tsT
+  have hN1440 := AP.minutesInYear_mod c.ap.leap
+  have hlenV : c.vals.length = c.ap.moys.length := by rw [hlen, AP.len_eq_length c.ap hwfs]
+  -- names
+  generalize hNdef : minutesInYear c.ap.leap = N at *
+  generalize hTdef : c.ap.step = T at *
+  generalize hSdef : c.ap.stMoy = S at *
+  generalize hEdef : c.ap.endMoy = E at *
+  generalize hSfdef : f'.stMoy = Sf at *
+  generalize hEfdef : f'.endMoy = Ef at *
+  generalize hndef : c.ap.moys.length = n at *
+  generalize hLdef : f'.moys.length = L at *
+  generalize htsdef : c.ap.timestep = ts at *
+  let Y := 24 * daysInYear c.ap.leap * ts
+  have hN : N = Y * T := by
+    show N = 24 * daysInYear c.ap.leap * ts * T
+    rw [Nat.mul_assoc (24 * daysInYear c.ap.leap) ts T, tsT, ← hNdef]
+    unfold minutesInYear; omega
+  -- spans
+  have hW : n * T ≤ N := by split at sp_s <;> omega
+  have hWf : L * T ≤ N ∧ 60 ≤ L * T ∧ (Sf + L * T = Ef + 60 ∨ Sf + L * T = Ef + 60 + N) := by
+    split at sp_f <;> omega
+  have hnY : n ≤ Y := Nat.le_of_mul_le_mul_right (by rw [← hN]; exact hW) hT
+  have hLY : L ≤ Y := Nat.le_of_mul_le_mul_right (by rw [← hN]; exact hWf.1) hT
+  have htsL : ts ≤ L := Nat.le_of_mul_le_mul_right (by rw [tsT]; exact hWf.2.1) hT
+  have hSN : S < N := by omega
+  -- position of the first filter step
+  have hSfmem : Sf ∈ c.ap.moys := by rw [← hSfdef]; exact hin _ (stMoy_mem f' hwf)
+  obtain ⟨a, ha, _, hSfa⟩ := pos_of_mem c.ap hwfs h0s h23s Sf hSfmem
+  rw [hndef] at ha
+  rw [hSdef, hTdef, hNdef] at hSfa
+  have hSfa' : Sf = cyc S T N a := hSfa
+  have haY : a < Y := Nat.lt_of_lt_of_le ha hnY
+  have hfk : ∀ k, k < L → f'.moys[k]? = some (cyc S T N (a + k)) := by
+    intro k hk
+    rw [get_f k hk, ← cyc_shift, ← hSfa']
+  have hgs : ∀ j, j < n → c.ap.moys[j]? = some (cyc S T N j) := fun j hj => get_s j hj
+  have hidx : ∀ k, k < L → (a + k) % Y < n := by
+    intro k hk
+    have hm : cyc S T N (a + k) ∈ c.ap.moys := hin _ (List.mem_of_getElem? (hfk k hk))
+    obtain ⟨j, hj, _, hjm⟩ := pos_of_mem c.ap hwfs h0s h23s _ hm
+    rw [hndef] at hj
+    rw [hSdef, hTdef, hNdef] at hjm
+    have hYpos : 0 < Y := by omega
+    have : (a + k) % Y = j :=
+      cyc_inj S T N Y _ _ hN hSN hT (Nat.mod_lt _ hYpos) (by omega)
+        (by rw [← cyc_mod S T N Y (a + k) hN]; exact hjm)
+    omega
+  -- whole hours are not split by the end of the cycle
+  have hoffa := cyc_offset S T N Y a hN hSN haY hT
+  rw [← hSfa'] at hoffa
+  have haT60 : a * T % 60 = 0 := by
+    rw [← hoffa]
+    by_cases hle : S ≤ Sf
+    · have : Sf + N - S = Sf - S + N := by omega
+      rw [this, Nat.add_mod_right, Nat.mod_eq_of_lt (show Sf - S < N by omega)]; omega
+    · rw [Nat.mod_eq_of_lt (show Sf + N - S < N by omega)]; omega
+  have hsplit : a + L ≤ Y ∨ Y + ts ≤ a + L := by
+    have h1 : (a + L) * T = a * T + L * T := Nat.add_mul _ _ _
+    have h2 : (Y + ts) * T = N + 60 := by rw [Nat.add_mul, ← hN, tsT]
+    have h3 : a * T + L * T ≤ N ∨ N + 60 ≤ a * T + L * T := by omega
+    rcases h3 with h3 | h3
+    · exact Or.inl (Nat.le_of_mul_le_mul_right (by rw [h1, ← hN]; exact h3) hT)
+    · exact Or.inr (Nat.le_of_mul_le_mul_right (by rw [h1, h2]; exact h3) hT)
+  -- the slice
+  obtain ⟨hvl, hvk⟩ := sliceVals_cyc c.vals Y a L ts (by rw [hlenV]; exact hnY) hLY hts0 htsL haY hsplit
+    (by rw [hlenV]; exact hidx)
+  -- the computed bounds
+  have hst : sliceStart c.ap f' = (a : Int) := by
+    unfold sliceStart
+    rw [slice_idx c.ap f' hwfs hwf hleap f'.stMoy (by rw [hSfdef]; exact f1) (by rw [hleap, hNdef, hSfdef]; omega),
+      hleap, hstep, hSfdef, hSdef, hNdef, hoffa, Nat.mul_div_cancel _ hT]
+  have hEf : Ef = cyc S T N ((a + L - ts) % Y) := by
+    rw [← cyc_mod S T N Y _ hN]
+    have hk : a + L - ts = a + (L - ts) := by omega
+    rw [hk, ← cyc_shift, ← hSfa', Nat.sub_mul, tsT]
+    rcases hWf.2.2 with h | h
+    · have : Sf + (L * T - 60) = Ef := by omega
+      rw [this, Nat.mod_eq_of_lt (by omega)]
+    · have : Sf + (L * T - 60) = Ef + N := by omega
+      rw [this, Nat.add_mod_right, Nat.mod_eq_of_lt (by omega)]
+  have hYpos : 0 < Y := by omega
+  have hoffe := cyc_offset S T N Y ((a + L - ts) % Y) hN hSN (Nat.mod_lt _ hYpos) hT
+  rw [← hEf] at hoffe
+  have hen : sliceEnd c.ap f' = (((a + L - ts) % Y + ts : Nat) : Int) := by
+    unfold sliceEnd
+    rw [slice_idx c.ap f' hwfs hwf hleap f'.endMoy (by rw [hEfdef]; exact f2) (by rw [hleap, hNdef, hEfdef]; omega),
+      hleap, hstep, hEfdef, hSdef, hNdef, hoffe, Nat.mul_div_cancel _ hT, htseq]
+    omega
+  rw [hst, hen]
+  refine ⟨_, ?_, hvl, ?_⟩
+  · unfold Cont.mk?
+    rw [if_pos ⟨hday.1, hday.2, by rw [hvl, AP.len_eq_length f' hwf, hLdef]⟩]
+    rfl
+  · intro k m v hm hv
+    have hk : k < L := by
+      rcases Nat.lt_or_ge k L with h | h
+      · exact h
+      · rw [List.getElem?_eq_none (by rw [hLdef]; exact h)] at hm; cases hm
+    have hm' := hfk k hk
+    rw [hm] at hm'
+    injection hm' with hm'
+    rw [hvk k hk] at hv
+    have hpos := hgs _ (hidx k hk)
+    rw [← cyc_mod S T N Y (a + k) hN, ← hm'] at hpos
+    unfold Cont.pairs
+    rw [List.mem_iff_getElem?]
+    exact ⟨(a + k) % Y, by rw [List.getElem?_zip_eq_some]; exact ⟨hpos, hv⟩⟩
 
 end Filter
